@@ -1228,13 +1228,32 @@ theorem descriptorFromResponse_ok {r : Resp} {known : Bytes} {rs rd : Bool} {d :
     by_cases h1 : hget r.hdr hDigest ≠ [] ∧ (!isDigest (hget r.hdr hDigest)) = true
     · rw [if_pos h1] at h; cases h
     · rw [if_neg h1] at h
-      by_cases h2 : rd = true ∧ (if known ≠ [] then known else hget r.hdr hDigest) = []
-      · rw [if_pos h2] at h; cases h
-      · rw [if_neg h2] at h
-        injection h with h
-        subst h
-        refine ⟨?_, rfl, h2⟩
-        simpa using h1
+      by_cases hkv : known ≠ [] ∧ (!isDigest known) = true                  -- F32: an ill-formed digest argument
+      · rw [if_pos hkv] at h; cases h
+      · rw [if_neg hkv] at h
+        by_cases h2 : rd = true ∧ (if known ≠ [] then known else hget r.hdr hDigest) = []
+        · rw [if_pos h2] at h; cases h
+        · rw [if_neg h2] at h
+          injection h with h
+          subst h
+          refine ⟨?_, rfl, h2⟩
+          simpa using h1
+
+/-- F32: a descriptor is formed only when the digest the caller named (if any) is well formed. -/
+theorem descriptorFromResponse_known_valid {r : Resp} {known : Bytes} {rs rd : Bool} {d : Desc}
+    (h : descriptorFromResponse r known rs rd = .ok d) (hk : known ≠ []) : isDigest known = true := by
+  unfold descriptorFromResponse at h
+  simp only at h
+  split at h
+  · cases h
+  · split at h
+    · cases h
+    · split at h
+      · cases h
+      · rename_i hkv
+        cases hd : isDigest known with
+        | true => rfl
+        | false => exact absurd ⟨hk, by simp [hd]⟩ hkv
 
 theorem descriptorFromResponse_digest {r : Resp} {known : Bytes} {rs rd : Bool} {d : Desc}
     (h : descriptorFromResponse r known rs rd = .ok d) :
@@ -1269,7 +1288,7 @@ theorem newBlobReader_ne_panic {d : Desc} (v : Bool) (b : Bytes) (h : digestHash
   intro e; cases e
 
 theorem clientRead_ne_panic (H : Bytes → Bytes) (hH : ∀ x, digestHashable (H x) = true) (kind : Kind) (known : Bytes)
-    (hk : known = [] ∨ isDigest known = true) (r1 : Resp) (r2 : Option Resp) :
+    (r1 : Resp) (r2 : Option Resp) :                                       -- F32: no hypothesis on `known` any more
     clientRead H kind known r1 r2 ≠ .panic := by
   unfold clientRead
   split
@@ -1281,9 +1300,9 @@ theorem clientRead_ne_panic (H : Bytes → Bytes) (hH : ∀ x, digestHashable (H
       · rename_i hne
         apply newBlobReader_ne_panic
         rcases descriptorFromResponse_digest hd with h1 | h1
-        · rcases hk with hk | hk
-          · exact absurd (h1.trans hk) hne
-          · rw [h1]; exact isDigest_hashable hk
+        · -- F32: the digest the caller named was checked before it was used
+          have hkne : known ≠ [] := fun e => hne (h1.trans e)
+          rw [h1]; exact isDigest_hashable (descriptorFromResponse_known_valid hd hkne)
         · exact isDigest_hashable h1
       · split
         · intro e; cases e
@@ -1317,6 +1336,21 @@ theorem clientGetBlobRange_ne_panic (known : Bytes) (hk : isDigest known = true)
       · rw [h1]; exact isDigest_hashable hk
       · exact isDigest_hashable h1
 
+/-- F32: with a digest named (well formed or not) the range reader never reaches `Algorithm().Hash()` on an
+ill-formed digest: `descriptorFromResponse` refuses first. -/
+theorem clientGetBlobRange_ne_panic_named (known : Bytes) (hk : known ≠ []) (r : Resp) :
+    clientGetBlobRange known r ≠ .panic := by
+  unfold clientGetBlobRange
+  split
+  · intro e; cases e
+  · split
+    · intro e; cases e
+    · rename_i d hd
+      apply newBlobReader_ne_panic
+      rcases descriptorFromResponse_digest hd with h1 | h1
+      · rw [h1]; exact isDigest_hashable (descriptorFromResponse_known_valid hd hk)
+      · exact isDigest_hashable h1
+
 /-- the digests a call carries were validated when its request was constructed -/
 def Call.digestsValid : Call → Prop
   | .getBlob dg | .getBlobRange dg _ _ | .getManifest dg => isDigest dg = true
@@ -1330,14 +1364,14 @@ theorem clientDecode_ne_panic (H : Bytes → Bytes) (hH : ∀ x, digestHashable 
   | nil => cases c <;> simp only <;> (try split) <;> (intro e; cases e)
   | cons r1 rest =>
     cases c with
-    | getBlob dg => exact clientRead_ne_panic H hH _ _ (Or.inr hc) _ _
+    | getBlob dg => exact clientRead_ne_panic H hH _ _ _ _
     | getBlobRange dg o0 o1 =>
       simp only
       split
-      · exact clientRead_ne_panic H hH _ _ (Or.inr hc) _ _
+      · exact clientRead_ne_panic H hH _ _ _ _
       · exact clientGetBlobRange_ne_panic _ hc _
-    | getManifest dg => exact clientRead_ne_panic H hH _ _ (Or.inr hc) _ _
-    | getTag => exact clientRead_ne_panic H hH _ _ (Or.inl rfl) _ _
+    | getManifest dg => exact clientRead_ne_panic H hH _ _ _ _
+    | getTag => exact clientRead_ne_panic H hH _ _ _ _
     | resolveBlob dg => simp only [clientResolve]; (repeat' split) <;> (intro e; cases e)
     | resolveManifest dg => simp only [clientResolve]; (repeat' split) <;> (intro e; cases e)
     | resolveTag => simp only [clientResolve]; (repeat' split) <;> (intro e; cases e)
@@ -1351,6 +1385,40 @@ theorem clientDecode_ne_panic (H : Bytes → Bytes) (hH : ∀ x, digestHashable 
     | delete => simp only [clientDelete]; (repeat' split) <;> (intro e; cases e)
 
 
+
+/-- F32: the digest arguments of a call are present (an empty digest never makes a request: `Construct` fails) -/
+def Call.digestsNamed : Call → Prop
+  | .getBlob dg | .getBlobRange dg _ _ | .getManifest dg => dg ≠ []
+  | _ => True
+
+/-- F32: no hypothesis on the *form* of the digest arguments is needed any more. -/
+theorem clientDecode_ne_panic_named (H : Bytes → Bytes) (hH : ∀ x, digestHashable (H x) = true)
+    (resolve : Bytes → Option Bytes) (c : Call) (hc : c.digestsNamed) (rs : List Resp) :
+    clientDecode H resolve c rs ≠ .panic := by
+  unfold clientDecode
+  cases rs with
+  | nil => cases c <;> simp only <;> (try split) <;> (intro e; cases e)
+  | cons r1 rest =>
+    cases c with
+    | getBlob dg => exact clientRead_ne_panic H hH _ _ _ _
+    | getBlobRange dg o0 o1 =>
+      simp only
+      split
+      · exact clientRead_ne_panic H hH _ _ _ _
+      · exact clientGetBlobRange_ne_panic_named _ hc _
+    | getManifest dg => exact clientRead_ne_panic H hH _ _ _ _
+    | getTag => exact clientRead_ne_panic H hH _ _ _ _
+    | resolveBlob dg => simp only [clientResolve]; (repeat' split) <;> (intro e; cases e)
+    | resolveManifest dg => simp only [clientResolve]; (repeat' split) <;> (intro e; cases e)
+    | resolveTag => simp only [clientResolve]; (repeat' split) <;> (intro e; cases e)
+    | pushManifest own => simp only [clientPushManifest]; (repeat' split) <;> (intro e; cases e)
+    | mountBlob dg => simp only [clientMount]; (repeat' split) <;> (intro e; cases e)
+    | pushBlob own => simp only [clientPushBlob]; (repeat' split) <;> (intro e; cases e)
+    | pushBlobChunked cs => simp only [clientPushBlobChunked]; (repeat' split) <;> (intro e; cases e)
+    | resumeAsk cs => simp only [clientResumeAsk]; (repeat' split) <;> (intro e; cases e)
+    | flushPatch => simp only; (repeat' split) <;> (intro e; cases e)
+    | commit size dg => simp only [clientCommit]; (repeat' split) <;> (intro e; cases e)
+    | delete => simp only [clientDelete]; (repeat' split) <;> (intro e; cases e)
 
 /-! ### F31: a call by digest reports the digest that was asked for -/
 
